@@ -135,6 +135,7 @@ func init() {
 		cells = append(cells, familyFName(th)...)
 		cells = append(cells, familyF3(th)...)
 		cells = append(cells, familyF3Pairs()...)
+		cells = append(cells, familyIdents()...)
 		e.Rep.Rule("families F1 (complete type matrix x toggles x match), F-name (name alphabet x field/getter x export x local/imported x case x getter) and F3 (struct shapes, member-wise descent); " +
 			"oracle: the reference matcher of DESIGN Appendix A (admissible outcome sets) vs the classified body of the generated function, per destination path; " +
 			"non-trivial = accepted cell in which the reference predicts an assignment or a descent for at least one path (the decision hangs on type x toggles)")
@@ -146,6 +147,11 @@ func init() {
 	register("C06", "model_checking", func(e *Env) {
 		th := e.Rep.Thorough()
 		cells := familyF4(th)
+		for _, c := range familyIdents() {
+			if c.Family == "F7-ident-members" {
+				cells = append(cells, c)
+			}
+		}
 		e.Rep.Rule("family F4: :skip / :map / :conv / :literal / $n notations x destination path (top-level, nested in an assignable / descended / absent struct, the struct itself, missing, wrong case) x source form " +
 			"(field, nested, getter, getter chain, through pointer, promoted, error getter, $n forms, missing) x converter shape x error result x style x case x competing notation; complete product in thorough, " +
 			"all cells within 2 deviations of the base cell in quick; oracle: reference precedence (skip > named notation > name match) and reference resolver vs the classified body; " +
